@@ -336,6 +336,8 @@ class Evaluator:
                 return r.kind == k[1]
             if name == "unknown":
                 return r.kind is None
+            if name == "strip" and not args:
+                return r        # strip() removes prefixes, ranges, references and labels: the domain has none of them
             if name == "get_kind":
                 # the domain models *unwrapped* types: the outermost kind is the base kind
                 if r.kind is not None and r.kind not in ("<sub>", "OTHER"):
